@@ -11,6 +11,7 @@
 -/
 import Basyx.Model.FileStore
 import Basyx.Lemmas.FileStore
+import Basyx.Gen.Backends
 namespace Basyx.FileStore
 
 /-! ## The specification: a persistent map from identifier to document -/
@@ -814,5 +815,15 @@ example : (finish .fixed (runS .fixed (mk false none false false .add .get) [tru
 example : (runA .sourceUnderLock (mk false none false false .add .get)
     [false, false, false, false, true, true, true, true, true, true, false]).t1.res = .ref .x0 := by decide
 example : addedLive (finish .fixed (runS .fixed (mk false none false false .add .get) [false, false, true, true])) = true := by decide
+
+/-! ### Documents are keyed by the identifier itself
+
+The model files a document under its identifier (`disk : AList Id Ver`): two identifiers share a document only if they are equal.
+The code names the file `sha256(identifier.encode("utf-8")).hexdigest()`; that this is exactly what `_transform_id` computes - no
+normalisation, case folding or stripping of the identifier before hashing - is regenerated from the source (`Gen/Backends.lean`);
+the injectivity of sha256 on the identifiers used is the stated assumption. -/
+
+theorem c14_document_name_is_hash_of_identifier :
+    Gen.Backends.localTransform = "sha256-utf8" ∧ Gen.Backends.unrecognised = [] := by decide
 
 end Basyx.FileStore.Conc
